@@ -92,8 +92,15 @@ def attribute(G, t, c, glob_only: set, match_only: set, raw_results: list[str], 
         cs = u.split('/')
         return any(os.path.islink(full('/'.join(cs[:j]))) and os.path.isdir(full('/'.join(cs[:j]))) for j in range(1, len(cs)))
     long = bool(c.flags & G.GLOBSTARLONG)
-    mixed_stars = long and (any(('**' in ss and '***' in ss) for ss in segs) or
-                            (matchbase and bool(c.flags & G.FOLLOW) and any('**' in ss for ss in segs)))
+    # KF-G7 is about CONSECUTIVE `**`/`***` segments (merged differently by walker and regex); the implicit
+    # MATCHBASE part is `***` under GLOBSTARLONG|FOLLOW and merges with a pattern-initial `**`
+    def _consecutive_mixed(ss):
+        return any(ss[i] in ('**', '***') and ss[i + 1] in ('**', '***') and ss[i] != ss[i + 1] for i in range(len(ss) - 1))
+    mixed_stars = long and (any(_consecutive_mixed(ss) for ss in segs) or
+                            (matchbase and bool(c.flags & G.FOLLOW) and any(ss and ss[0] == '**' for ss in segs)))
+    # KF-G3 needs two CAPTURED `**` groups in one regex (`***` under GLOBSTARLONG is not captured: it follows links)
+    ncap = max((sum(1 for s in ss if s == '**' or (s == '***' and not long)) for ss in segs), default=0) + \
+        (1 if matchbase and not (long and c.flags & G.FOLLOW) else 0)
     other_magic = any(s not in ('**', '***') and G.is_magic(s, flags=c.flags) for ss in segs for s in ss) or \
         (not long and any('***' in ss for ss in segs))
     def dot_segment():
@@ -132,7 +139,7 @@ def attribute(G, t, c, glob_only: set, match_only: set, raw_results: list[str], 
             ids.add('KF-D7')
         elif linkdir(u) and mixed_stars:
             ids.add('KF-G7')                       # `**/***`: glob keeps the later star, the regex the earlier one
-        elif (nstars >= 2 or (matchbase and nstars >= 1)) and globstar and any(k == 'link' for _, k, _ in t.desc):
+        elif ncap >= 2 and globstar and any(k == 'link' for _, k, _ in t.desc):
             ids.add('KF-G3')                       # second group lstat-ed under the wrong base: may hit an unrelated link
         elif linkdir(u) and nstars >= 1 and globstar and (nstars >= 2 or other_magic):
             ids.add('KF-G8')                       # only the first regex decomposition is link-tested
@@ -157,7 +164,7 @@ def attribute(G, t, c, glob_only: set, match_only: set, raw_results: list[str], 
             ids.add('KF-D6')
         elif has_linkdir and mixed_stars:
             ids.add('KF-G7')
-        elif has_linkdir and (nstars >= 2 or (matchbase and nstars >= 1)):
+        elif has_linkdir and ncap >= 2 and globstar:
             ids.add('KF-G3')
         else:
             return None
